@@ -1610,3 +1610,99 @@ def search(tier, rng):
         if len(found) >= 3:
             break
     return found
+
+
+# ====================================================================================================================
+# translator tie (added): the index bookkeeping of discard / blocked / downsample / derivative / decimate is REGENERATED
+# from the source on every run (translate/pycoro2coq.py -> coq/gen/StagesStepGen.v); coq/Stages/ProofsTie.v proves the
+# generated step functions equal to the step functions of Stages/Model.v and restates the C12 theorems over them
+# (C12_source_* in coq/Props/C12.v).  A source the translator cannot digest, a generated file that does not compile, a
+# failing self-test or a tie proof that no longer goes through is reported by the driver as a broken tie.
+GEN = 'gen/StagesStepGen.v'
+TIE_STAGES = {'discard': ('check_discard ', 'gcheck_discard '), 'blocked': ('check_blocked ', 'gcheck_blocked '),
+              'downsample': ('check_downsample true ', 'gcheck_downsample '),
+              'derivative': ('check_derivative ', 'gcheck_derivative '),
+              'decimate': ('check_decimate_e true ', 'gcheck_decimate ')}
+TRUSTED = TRUSTED + [
+    'translate/pycoro2coq.py (coroutine-to-step translator: Python assignment / if / while / augmented assignment / list append '
+    'as let / if / fuelled Fixpoint over Z and the block type of Stages/Model.v; x[..., a:b:c] -> getitem, concat -> concat2 / '
+    'concat_list, getattr(y, "s0", 0) -> s0_of, isinstance(x, PipelineData) -> match on the annotations, x.s0 = e -> set_s0, '
+    '% -> py_mod (None for a zero divisor), truth of len(x) -> py_len_true (a 2-D array has >= 1 channel); objects are values: a '
+    'slice / concat result never aliases a variable that is written later; slice steps >= 1). PINNED by their exact text and '
+    'mapped to abstract parameters or dropped: the @coroutine decorator; the `is Ellipsis` restart branches of discard and blocked '
+    '(dropped: the model has no restart message); derivative: np.full of the initial state -> np_full1, `np.diff(samples) * samples.fs` '
+    '-> np_diff_fs with the abstract subtraction; decimate: the cheby1 design, the stability test, lfilter_zi, the `ndim == 2` '
+    'reshaping of zf -> abstract zf0, signal.lfilter -> mapAccum of the abstract one-sample recurrence. Self-test on every '
+    'translation: the generated definitions, evaluated by coqc, against the real coroutines on 60 chunkings.']
+
+
+def _tie_cases():
+    import random
+    rng = random.Random(20261001)
+    out = []
+    for st, ps in (('discard', [{'d': 0}, {'d': 2}, {'d': 5}, {'d': 40}]), ('blocked', [{'bs': 1}, {'bs': 3}, {'bs': 8}]),
+                   ('downsample', [{'q': 1}, {'q': 2}, {'q': 3}, {'q': 5}]), ('derivative', [{'init': 0}, {'init': 3}]),
+                   ('decimate', [{'q': 2}, {'q': 3}, {'q': 4}])):
+        shapes = [[3, 3, 4], [1, 0, 1, 1, 5, 0, 2], [7], [0, 2, 6, 1], [2, 2, 2, 2, 3], [5, 1, 1, 9]]
+        k = 0
+        for two in (False, True):
+            for ann in (False, True):
+                for _ in range(3):
+                    p, sizes = ps[k % len(ps)], shapes[k % len(shapes)]
+                    k += 1
+                    out.append(_case(st, p, two, ann, sizes, rng))
+    return out
+
+
+def _selftest(pycoro2coq):
+    """the emitted definitions (evaluated by coqc on the model's executable instance) against the REAL coroutines"""
+    import vlib
+    terms, used = [], []
+    for c in _tie_cases():
+        try:
+            res = impl(c)
+        except Exception as e:                      # the code under test raises: the generated step must say None
+            res = {'raised_allowed': f'{type(e).__name__}'}
+        if 'crash' in res:
+            continue
+        t = term(c, res)
+        old, new = TIE_STAGES[c['stage']]
+        if old not in t:
+            raise pycoro2coq.TranslatorGap(f'self-test: no model term for {c}')
+        terms.append(t.replace(old, new))
+        used.append(c)
+    bad = vlib.run_cases(PROP, ['Stages.Model', 'gen.StagesStepGen'], terms, tag='tie')
+    if bad:
+        raise pycoro2coq.TranslatorGap(
+            f'self-test: the generated definition disagrees with the real coroutine on {len(bad)} of {len(terms)} inputs, '
+            f'first: {used[bad[0]]}')
+    return {'evaluations': len(terms), 'disagreements': 0}
+
+
+def translate(repo):
+    """Regenerate coq/gen/StagesStepGen.v from <repo>/psiaudio/pipeline.py.  Any exception other than a MachineryError
+    is reported by the driver as a broken tie (fail closed)."""
+    import vlib
+    from translate import pycoro2coq
+    info = {'gen_files': [GEN], 'source': [os.path.join(repo, 'psiaudio/pipeline.py')], 'gap': None}
+    head = ('(* GENERATED on every run by harness/C12.py translate() with translate/pycoro2coq.py from\n'
+            f'   {repo}/psiaudio/pipeline.py - do not edit.  One pass of each coroutine from (yield) to (yield). *)\n')
+    path = os.path.join(vlib.COQ, GEN)
+    try:
+        body, tinfo = pycoro2coq.translate(repo)
+    except pycoro2coq.TranslatorGap as e:
+        # deliberately ill-typed: nothing that depends on the generated definitions can be built from a stale file
+        msg = ''.join(ch if ch.isalnum() or ch in " _.,:;[]{}=+-/<>'`" else ' ' for ch in str(e))[:400]
+        with open(path, 'w') as f:
+            f.write(head + 'From Coq Require Import ZArith String.\n'
+                    f'Definition translator_gap : Z :=\n  "{msg}"%string.\n')
+        raise
+    with open(path, 'w') as f:                                  # always rewritten: always re-checked
+        f.write(head + body)
+    rc, out = vlib.coq_build('gen/StagesStepGen.vo')
+    if rc != 0:
+        if not os.path.exists(os.path.join(vlib.COQ, 'Stages/Model.vo')):
+            raise vlib.MachineryError('Stages/Model.v does not build:\n' + out[-3000:])
+        raise pycoro2coq.TranslatorGap('the generated definitions do not type-check: ' + out[-1200:])
+    info.update(functions=tinfo['functions'], notes=tinfo['notes'], selftest=_selftest(pycoro2coq))
+    return info
